@@ -32,7 +32,7 @@ pub fn via_builder(f: &Facts, finish: Finish) -> Result<Ontology, String> {
         }
         let mut b = b.connect_all_terms();
         for call in &f.ann_calls {
-            let name = f.rec_name(call.kind as usize, call.rec);
+            let name = call.alt_name.as_deref().unwrap_or_else(|| f.rec_name(call.kind as usize, call.rec));
             match (call.kind as usize, call.term) {
                 (GENE, None) => b.add_gene(name, GeneId::from(call.rec)),
                 (OMIM, None) => {
@@ -373,7 +373,7 @@ pub fn render_jax(f: &Facts, noise: &JaxNoise) -> JaxFiles {
     let extra = if noise.extra_cols { "\tPMID:1\tTAS\t\t1/2\t\t\tP\tHPO:x[2020-01-01]" } else { "" };
     for (pos, c) in f.ann_calls.iter().enumerate() {
         let Some(t) = c.term else { continue };
-        let name = f.rec_name(c.kind as usize, c.rec);
+        let name = c.alt_name.as_deref().unwrap_or_else(|| f.rec_name(c.kind as usize, c.rec));
         match c.kind as usize {
             GENE => {
                 let tname = f.term(t).map(|x| x.name.as_str()).unwrap_or("");
